@@ -191,9 +191,21 @@ def undeclare_scenarios(ctx, key, label, quick=True):
                 cases.append((used, perm))
     if quick:
         cases = rng.sample(cases, 24)
-    for used, perm in cases:
+    cases = [(4, used, perm) for used, perm in cases]
+    # wide managers (9-12 levels) with few occupied levels, one of them 8 or more: what a
+    # compaction that follows the iteration order of a set of small integers gets wrong
+    # (round-22 seed); sets of ints iterate in increasing order below 8
+    for _ in range(10 if quick else 80):
+        nw = rng.choice([9, 10, 12])
+        k = rng.choice([2, 2, 3])
+        used = sorted(rng.sample(range(nw), k - 1) + [rng.randrange(8, nw)])
+        used = tuple(sorted(set(used)))
+        perm = list(used)
+        rng.shuffle(perm)
+        cases.append((nw, used, tuple(perm)))
+    for n, used, perm in cases:
         for explicit in (False, True):
-            s = ctx.session(f'{label} undeclare used={used} created={perm} explicit={explicit}')
+            s = ctx.session(f'{label} undeclare n={n} used={used} created={perm} explicit={explicit}')
             s.op(0, 'new', {v: v for v in range(n)})
             b = s.impl.mgr[0]
             refs = {}
@@ -212,7 +224,7 @@ def undeclare_scenarios(ctx, key, label, quick=True):
             unused = [v for v in range(n) if v not in used]
             r = s.op(0, 'undeclare', unused if explicit else [])
             case = lambda s=s: dict(stream=s.label, lines=list(s.lines))  # noqa: E731
-            ctx.case((label, 'undeclare', used, perm, explicit), True)
+            ctx.case((label, 'undeclare', n, used, perm, explicit), True)
             ctx.count('undeclare-scenario')
             if r is None:
                 ctx.violation(key, f'undeclare_vars refused to remove the unused variables {unused}', case)
